@@ -159,10 +159,55 @@ def run_C08(ctx, E):
     stage_record_trace(ctx, E, "hist", "C08_Trace", "C08_Trace.cfg", heap="16g")
 
 
+def run_C07(ctx, E):
+    os.environ["VERIF_TIER_INTERNAL"] = ctx.tier
+    stage_mc_replay(ctx, E, "eligible", "C07_MC", "C07_MC_%s.cfg" % ctx.tier)
+    stage_record_trace(ctx, E, "opt", "C07_Trace", "C07_Trace.cfg", heap="8g")
+
+
+def run_C18(ctx, E):
+    ctx.exhaustive = True
+    stage_mc_replay(ctx, E, "combine", "C18_MC", "C18_MC_%s.cfg" % ctx.tier)
+    stage_record_trace(ctx, E, "combine", "C18_Trace", "C18_Trace.cfg", heap="8g")
+
+
 _seqhash_note = ("trusted: TLC, community modules; the digest is uninterpreted in the specification and instantiated "
                  "in the replayer by a from-scratch BLAKE3 transcription pinned by the official test vectors; "
                  "double-stranded inputs containing Z or (under type DNA) U are outside the strand clause and not replayed")
 PROPS = {
+    "C07": dict(run=run_C07,
+                technique="TLC evaluation of the eligibility definition (CodonTables!Eligible) over boundary weightings "
+                          "with theorem invariants; per (code, weighting) case replayed on codon.Optimize for every "
+                          "amino acid; TLC trace validation of recorded Optimize calls; the proportionality clause is a "
+                          "z-test in the harness against the specification's weights",
+                level_text="8 boundary weightings (1:9 = exactly 10 %, 1:10, 11:89, zero-weight codon, 10:30:60, dead "
+                           "amino acids ...) x 4 (quick) / all 25 (thorough) genetic codes are TLC states with the "
+                           "eligible codon set per residue; the real optimiser is run on 20000 (quick) / 100000 "
+                           "(thorough) copies of every residue: every emitted codon must be eligible, the gene must "
+                           "translate back, unencodable residues must give an error, and codon frequencies must match "
+                           "the weights (|z| <= 6); recorded Optimize calls on random tables and proteins (incl. the "
+                           "library's random protein generator) are judged codon by codon by C07_Trace",
+                level_note="trusted: TLC, community modules; the proportionality clause is statistical and decided in "
+                           "the harness (TLC supplies the expected distribution); Optimize seeds math/rand from the "
+                           "clock, so draws are not reproducible",
+                rule="S->I: one case per (code, weighting) with all residues; I->S: one event per Optimize call"),
+    "C18": dict(run=run_C18,
+                technique="TLC evaluation of the value layer of CodonTables.tla (AddW, CompW with explicit +/-1 slack "
+                          "cells) with the property's clauses as invariants; every emitted (code, operands, cut-off) "
+                          "case replayed on AddCodonTable / CompromiseCodonTable; TLC trace validation of recorded "
+                          "combinations and of genes optimised with compromise tables",
+                level_text="all pairs from six weightings (uniform, skewed, 1:9 / 1:10 / 11:89 boundaries, one outside "
+                           "the domain) x 2 (quick) / 6 (thorough) genetic codes x 6 / 16 cut-offs from -1 to 2 are TLC "
+                           "states: symmetry, zeroing, averaging, sum and the optimiser corollary hold on the definition, "
+                           "and the real functions must reproduce sum exactly, compromise within 1, symmetry exactly, "
+                           "errors outside 0..1, and keep code and start/stop codons; recorded combinations of tables "
+                           "from random coding sequences to 10^5 bases over all 25 codes (cut-offs incl. realised shares "
+                           "+/-1) are judged by C18_Trace",
+                level_note="trusted: TLC, community modules, projection of real tables; operands are built through the "
+                           "public API and detached from the default tables by a JSON round trip (KF-C08-1)",
+                rule="S->I: one case per TLC state; I->S: 'combine' and 'opt' events",
+                assumptions=["cells within 1 of a non-zero cut-off, and cells of amino acids with total weight 0, are "
+                             "unconstrained"]),
     "C08": dict(run=run_C08,
                 technique="TLC model checking of a two-machine session specification (value semantics vs. heap with "
                           "aliasing, CodonSession.tla); one behaviour per transition of the bounded state graph replayed "
